@@ -1,10 +1,13 @@
 import Aiorpcx.Common.Hex
 import Aiorpcx.C03.Model
 /-! Line-protocol driver for the C03 model.
-    in : `<repaired|pinned> <internal> <busy> <excessive> <base> ; <R|N> <id> <outcome> ; ...`
-         (items in completion order) outcome: v<n> u<n> r<code>:<msg>:<cost> p<code>:<msg> o t
-         dv<n> du<n> de<code>:<msg>:<cost> x
-    out: `alive=.. close=.. errors=.. cost=.. lost=a,b replies=id:R<n>|id:E<code>:<msg>,...` -/
+    in : `<repaired|pinned> <internal> <busy> <excessive> <base> ; <slots> <deadline> <throttle> ;
+          <R|N|B|M> <id> <outcome> <dur> <arrival> ; ...`   (items in arrival order; B/M =
+         request / notification member of the batch)
+         outcome: v<n> u<n> e<code>:<msg>:<cost> r<code>:<msg>:<cost> p<code>:<msg> o<n> t
+         dv<n> du<n> de<code>:<msg>:<cost> d0 x xe tt b<n>
+    out: `alive=.. close=.. errors=.. cost=.. hook=.. lost=a,b replies=id:R<n>|id:E<code>:<msg>,..
+          batch=none|id:..,.. cut=none|<t> times=id@t,..` -/
 open Aiorpcx Aiorpcx.C03
 
 def parseTriple (s : String) : Option (Int × Nat × Nat) :=
@@ -20,24 +23,33 @@ def parsePair (s : String) : Option (Int × Nat) :=
 def dropN (s : String) (n : Nat) : String := String.ofList (s.toList.drop n)
 
 def parseOutcome (s : String) : Option Outcome :=
-  if s == "o" then some .raisesOther
-  else if s == "t" then some .overruns
+  if s == "t" then some .overruns
   else if s == "x" then some .excessiveCost
+  else if s == "xe" then some .raisesExcessive
+  else if s == "tt" then some .raisesTaskTimeout
+  else if s == "d0" then some .replyAndDisconnectNoArg
   else if s.startsWith "dv" then (dropN s 2).toNat?.map fun n => .replyAndDisconnect (.value n)
   else if s.startsWith "du" then (dropN s 2).toNat?.map fun n => .replyAndDisconnect (.unencodable n)
   else if s.startsWith "de" then
     (parseTriple (dropN s 2)).map fun (c, m, k) => .replyAndDisconnect (.error c m k)
   else if s.startsWith "v" then (dropN s 1).toNat?.map fun n => .returns (.value n)
   else if s.startsWith "u" then (dropN s 1).toNat?.map fun n => .returns (.unencodable n)
+  else if s.startsWith "e" then (parseTriple (dropN s 1)).map fun (c, m, k) => .returns (.error c m k)
   else if s.startsWith "r" then (parseTriple (dropN s 1)).map fun (c, m, k) => .raisesRpcError c m k
   else if s.startsWith "p" then (parsePair (dropN s 1)).map fun (c, m) => .raisesProtocolError c m
+  else if s.startsWith "o" then (dropN s 1).toNat?.map fun _ => .raisesOther
+  else if s.startsWith "b" then (dropN s 1).toNat?.map fun _ => .raisesBase
   else none
 
-def parseItem (s : String) : Option Item :=
+def parseItem (s : String) : Option TItem :=
   match (s.splitOn " ").filter (· ≠ "") with
-  | [k, i, o] => do
-      let kind ← (if k == "R" then some Kind.request else if k == "N" then some Kind.notification else none)
-      pure { id := (← i.toNat?), kind, outcome := (← parseOutcome o) }
+  | [k, i, o, d, a] => do
+      let (kind, batch) ←
+        (if k == "R" then some (Kind.request, false) else if k == "N" then some (Kind.notification, false)
+         else if k == "B" then some (Kind.request, true) else if k == "M" then some (Kind.notification, true)
+         else none)
+      pure { item := { id := (← i.toNat?), kind, batch, outcome := (← parseOutcome o) },
+             dur := (← d.toNat?), arr := (← a.toNat?) }
   | _ => none
 
 def replyStr : Nat × Reply → String
@@ -46,18 +58,30 @@ def replyStr : Nat × Reply → String
 
 def b01 (b : Bool) : String := if b then "1" else "0"
 
+def words (s : String) : List String := (s.splitOn " ").filter (· ≠ "")
+
 def handle (line : String) : String :=
   match (line.splitOn ";").map (·.trimAscii.toString) with
-  | hd :: items =>
-    match (hd.splitOn " ").filter (· ≠ ""), (items.filter (· ≠ "")).mapM parseItem with
-    | [v, a, b, c, d], some its =>
-      match a.toInt?, b.toInt?, c.toInt?, d.toNat? with
-      | some ie, some sb, some ex, some bc =>
+  | hd :: tmS :: items =>
+    match words hd, words tmS, (items.filter (· ≠ "")).mapM parseItem with
+    | [v, a, b, c, d], [k, p, s], some tis =>
+      match a.toInt?, b.toInt?, c.toInt?, d.toNat?, k.toNat?, p.toNat?, s.toNat? with
+      | some ie, some sb, some ex, some bc, some slots, some deadline, some throttle =>
         let cfg : Cfg := { internalError := ie, serverBusy := sb, excessiveUsage := ex, baseCost := bc }
-        let s := serve (if v == "pinned" then .pinned else .repaired) cfg its
-        s!"alive={b01 s.alive} close={b01 s.closeRequested} errors={s.errors} cost={s.cost} lost={String.intercalate "," (s.lost.map toString)} replies={String.intercalate "," (s.replies.map replyStr)}"
-      | _, _, _, _ => "bad-op"
-    | _, _ => "bad-op"
+        let tm : Timing := { slots, deadline, throttle }
+        let var := if v == "pinned" then Variant.pinned else Variant.repaired
+        let evs := schedule tm tis
+        let items := evs.map (·.2)
+        let r := serve var cfg items
+        let cut := (evs.find? fun (_, it) =>
+          let st := throttled var cfg it.outcome it.kind
+          st.close || st.escapes).map (·.1)
+        let batch := match batchResponse items r with
+          | some parts => String.intercalate "," (parts.map replyStr)
+          | none => "none"
+        s!"alive={b01 r.alive} close={b01 r.closed} errors={r.errors} cost={r.cost} hook={r.hooks} lost={String.intercalate "," (r.lost.map toString)} replies={String.intercalate "," (r.replies.map replyStr)} batch={batch} cut={match cut with | some t => toString t | none => "none"} times={String.intercalate "," (evs.map fun (t, it) => s!"{it.id}@{t}")}"
+      | _, _, _, _, _, _, _ => "bad-op"
+    | _, _, _ => "bad-op"
   | _ => "bad-op"
 
 def main : IO Unit := Hex.lineLoop handle
